@@ -207,7 +207,11 @@ where Pr: VInt + Into<usize> + AsPrimitive<usize> + Into<f64>, usize: AsPrimitiv
         }}; }
         type DecF<M> = Option<fn(&str, &M) -> Result<(), String>>;
         let cands_r: Vec<i32> = (-40..40).collect();
-        outcome!("ContiguousCategoricalEntropyModel::from_nonzero_fixed_point_probabilities", cc, Some(contract_dec::<CC<Pr, P>, P> as fn(&str, &CC<Pr, P>) -> Result<(), String>), None::<fn(&str, &CC<Pr, P>) -> Result<(), String>>);
+        // the encoder side of the contiguous model as well: every symbol of the declared support (and a few beyond it) is
+        // queried, so that a support symbol with probability zero (a zero inside the NonZero type) cannot hide behind a
+        // decoder view that never returns it
+        let cands_u: Vec<usize> = (0..probs.len() + 3).collect();
+        outcome!("ContiguousCategoricalEntropyModel::from_nonzero_fixed_point_probabilities", cc, Some(contract_dec::<CC<Pr, P>, P> as fn(&str, &CC<Pr, P>) -> Result<(), String>), Some(|nm: &str, m: &CC<Pr, P>| contract_enc::<CC<Pr, P>, P>(nm, m, &cands_u)));
         outcome!("ContiguousLookupDecoderModel::from_nonzero_fixed_point_probabilities", cl, Some(contract_dec::<CL<Pr, P>, P> as fn(&str, &CL<Pr, P>) -> Result<(), String>), None::<fn(&str, &CL<Pr, P>) -> Result<(), String>>);
         outcome!("NonContiguousCategoricalDecoderModel::from_symbols_and_nonzero_fixed_point_probabilities", nd, Some(contract_dec::<ND<i32, Pr, P>, P> as fn(&str, &ND<i32, Pr, P>) -> Result<(), String>), None::<fn(&str, &ND<i32, Pr, P>) -> Result<(), String>>);
         outcome!("NonContiguousLookupDecoderModel::from_symbols_and_nonzero_fixed_point_probabilities", nl, Some(contract_dec::<NL<i32, Pr, P>, P> as fn(&str, &NL<i32, Pr, P>) -> Result<(), String>), None::<fn(&str, &NL<i32, Pr, P>) -> Result<(), String>>);
